@@ -82,6 +82,19 @@ CLAIMED = {
              "protocol model, not by a line-by-line proof; the GC emptying sync.Pool is covered by the arbitrary borrow oracle.",
         tech="Rocq proof (pool non-interference by simulation; redeem protocol by induction on trees; regenerated static lemma) + instrumented history correspondence",
         ref="DESIGN.md 5/C04"),
+    "C09": dict(
+        text="Partial. Coq theorems over a model of the traversal of the default / example validators with its 'already visited' heuristic "
+             "(byte-for-byte): only places whose value their schema rejects are reported (no report for an accepted value or a place that "
+             "does not exist); every rejected value is reported at every depth when the heuristic is silent on the group's paths and no path "
+             "is built twice; the heuristic fires exactly when a dotted tail of the path repeats the end of what precedes it; the unrestricted "
+             "statement is refuted on the faithful model (property a of definition a: recorded finding). Tie: the harness enumerates every "
+             "place of the document (definitions, body parameters, responses at any depth; simple parameters, headers, their items; response "
+             "examples), judges each value with the validator of its own schema, and compares, message by message, what Go's spec validation "
+             "reports with what the model reports; converse check: no error / example warning without a rejected value.",
+        note=TB + "No axioms. The enumeration of places and path names is the harness's transcription of the walkers (checked by the tie); "
+             "the verdict of a schema on a value is the validators' own (C01/C16 cover them).",
+        tech="Rocq proof (soundness and conditional completeness of the traversal, heuristic characterisation, refutation witness) + place-by-place correspondence",
+        ref="DESIGN.md 5/C09"),
     "C05": dict(
         text="Coq theorems (partial by design): exclusive ownership - two live tenures never share a physical pooled object, for every "
              "client, in particular any merge of the command streams of any number of goroutines; what a disciplined client reads "
@@ -227,7 +240,7 @@ m = {
     "setup_cmd": "sh bin/setup",
     "hooks": {"guard": "verif", "enable": "go build -tags verif (and -tags verif,validatedebug for pool checks)",
               "baseline_off_cmd": "cd /repo && go test -vet=off -count=1 -timeout 25m ./...",
-              "source_commits": ["6c69608"], "add_only": True},
+              "source_commits": ["6c69608", "41f4605"], "add_only": True},
     "engines": [{"name": "coq-model+correspondence", "path": "/verif/coq, /verif/ocaml, /verif/go, /verif/bin/check",
                  "serves_properties": sorted(CLAIMED),
                  "kind_free_text": "Coq 8.16.1 proofs about hand-written Gallina models; models extracted to OCaml and run against the Go implementation on generated cases"}],
